@@ -551,6 +551,7 @@ nni_sock_create(nni_sock **sp, const nni_proto *proto)
 	if ((s = nni_zalloc(sz)) == NULL) {
 		return (NNG_ENOMEM);
 	}
+	s->s_size      = sz;
 	s->s_data      = s + 1;
 	s->s_sndtimeo  = -1;
 	s->s_rcvtimeo  = -1;
